@@ -249,12 +249,13 @@ impl Parser {
             // Token::Or => Some((1, 2)),
             // Token::And => Some((3, 4)),
             // ´´´
-            // By giving here the NOT operator a precedence of three, we are making sur it binds tighter than  AND & OR,
-            // but looselier than +, - , * an unary operators.
+            // By giving here the NOT operator a precedence of five (above the left binding power of AND, three,
+            // and not above the one of the comparison operators, five), we are making sure it binds tighter than AND & OR,
+            // but looselier than comparisons, +, - , * an unary operators.
             // This way, the expression: [NOT a AND b OR c], will be parsed as: (OR (AND (NOT a) b) c)
             Token::Not => {
                 self.next_token();
-                let expr = self.parse_expr_bp(3)?; // NOT precedence
+                let expr = self.parse_expr_bp(5)?; // NOT precedence
                 Ok(Expr::UnaryOp {
                     op: UnaryOperator::Not,
                     expr: Box::new(expr),
